@@ -282,3 +282,39 @@ def poolfn(run_tag, x):
         return swallow(300)
     _pt("poolfn")
     return ("p", run_tag, x)
+
+
+def linger(n):
+    """Returns its result at once, but leaves a non-daemon thread behind: the process stays around for n model seconds."""
+    import pyworkers.utils as utils
+
+    def hang_around():
+        utils.time.sleep(n)
+    utils.threading.Thread(target=hang_around, name="lingering").start()
+    return "done"
+
+
+# ---------------------------------------------------------------------------------------------
+# a value whose class is "defined in the main script": it can only be unpickled in a process that has that script as main
+def _load_mainbox(v):
+    from . import simos
+    if not simos.main_script_loaded():
+        raise AttributeError("Can't get attribute 'MainBox' on <module '__main__' (built-in)>")
+    return MainBox(v)
+
+
+class MainBox:
+    def __init__(self, v):
+        self.v = v
+
+    def __reduce__(self):
+        return (_load_mainbox, (self.v,))
+
+    def __eq__(self, other):
+        return type(other) is MainBox and other.v == self.v
+
+    def __hash__(self):
+        return hash(("MainBox", self.v))
+
+    def __repr__(self):
+        return "MainBox(%r)" % (self.v,)
